@@ -81,17 +81,35 @@ def run(ctx):
             ctx.check(not any(x[0] == "const" for x in rate_o) and len(rate_o) == 1, "R12.1", key + "#passed-rate-single-origin", loc(b, s.bb),
                       "the rate handed to format_with_sample_rate has origins %s (a constant or several sources): the weight would not match the sampling decision" % sorted(map(str, rate_o)))
             cs = controlling_switches(b, s.bb)
-            draw_ok = False
+            draw_ok_box = [False]
             problems = []
-            for i, t, yes, no in cs:
-                rv = discr_def(b, i, t)
-                # which truth value leads to the site?
-                tg = {v: tb for v, tb in t["targets"]}
-                false_t, true_t = tg.get(0), t["otherwise"]
-                site_on_true = true_t in yes
+
+            def phi_defs(l):
+                """definitions of a bool local assigned on several paths (`let c = a || b;`): [(block, const bool | rvalue)]"""
+                out = []
+                for kind, dbb, idx, node in b.defs().get(l, []):
+                    if b.is_cleanup(dbb) or kind != "assign" or node["k"] != "assign" or node["lhs"].get("p"):
+                        return None
+                    rv_ = node["rv"]
+                    k_ = op_const(rv_["op"]) if rv_["k"] == "use" else None
+                    if k_ is not None and "bool" in k_:
+                        out.append((dbb, k_["bool"]))
+                    elif rv_["k"] == "use" and op_local(rv_["op"]) is not None:
+                        sub = [d for d in b.defs().get(op_local(rv_["op"]), []) if not b.is_cleanup(d[1])]
+                        if len(sub) == 1 and sub[0][0] == "assign":
+                            out.append((dbb, sub[0][3]["rv"]))
+                        elif len(sub) == 1:
+                            out.append((dbb, {"k": "call", "bb": sub[0][1], "term": sub[0][3]}))
+                        else:
+                            return None
+                    else:
+                        out.append((dbb, rv_))
+                return out
+
+            def handle(rv, i, site_on_true, no, depth=0):
                 if rv is None:
                     problems.append("unrecognised condition at bb%d" % i)
-                    continue
+                    return
                 if rv.get("k") == "binop" and rv["op"] in CMP:
                     ao, bo = pr.operand(rv["a"]), pr.operand(rv["b"])
                     a_draw = any(x[0] == "call" and b.term(x[1]).get("callee", {}).get("name") in ("random", "gen", "random_range", "sample") for x in ao)
@@ -105,7 +123,7 @@ def run(ctx):
                         # emit iff draw <= rate
                         good = (op == "Le" and site_on_true) or (op == "Gt" and not site_on_true)
                         if good:
-                            draw_ok = True
+                            draw_ok_box[0] = True
                             # the other side: returns without using the output
                             other = no
                             used = []
@@ -119,22 +137,48 @@ def run(ctx):
                         else:
                             problems.append("sampling decision is `draw %s rate` with the emitting branch on %s: must be emit <=> draw <= rate" % (
                                 {"Le": "<=", "Lt": "<", "Ge": ">=", "Gt": ">"}[op], "true" if site_on_true else "false"))
-                        continue
+                        return
                     if (a_draw or b_draw) and not (a_rate or b_rate):
                         problems.append("the random draw is compared against %s, but the rate passed on is %s" % (
                             sorted(map(str, (bo if a_draw else ao)))[:2], sorted(map(str, rate_o))))
-                        continue
+                        return
                 if rv.get("k") == "binop" and rv["op"] in ("Eq", "Ne"):
                     ao, bo = pr.operand(rv["a"]), pr.operand(rv["b"])
                     consts = [x for x in ao | bo if x[0] == "const"]
                     is_one = any(x[1] == ("float", "1.0") for x in consts)
                     rside = {x for x in (ao | bo) if x[0] in ("arg", "call")} == {x for x in rate_o if x[0] != "const"}
                     if is_one and rside and ((rv["op"] == "Eq" and site_on_true) or (rv["op"] == "Ne" and not site_on_true)):
-                        continue
+                        return
                 # guards whose other side panics are not sampling conditions
                 if all(not (set(b.reachable(x)) & set(b.return_blocks())) for x in no):
-                    continue
+                    return
                 problems.append("emission also depends on an unrecognised condition at bb%d" % i)
+
+            for i, t, yes, no in cs:
+                tg = {v: tb for v, tb in t["targets"]}
+                false_t, true_t = tg.get(0), t["otherwise"]
+                site_on_true = true_t in yes
+                dl = op_local(t["discr"])
+                for _hop in range(3):        # through plain copies of the condition
+                    dd_ = [d for d in b.defs().get(dl, []) if not b.is_cleanup(d[1])] if dl is not None else []
+                    if len(dd_) == 1 and dd_[0][0] == "assign" and dd_[0][3]["rv"]["k"] == "use" and op_local(dd_[0][3]["rv"]["op"]) is not None:
+                        dl = op_local(dd_[0][3]["rv"]["op"])
+                    else:
+                        break
+                defs_ = phi_defs(dl) if dl is not None and len([d for d in b.defs().get(dl, []) if not b.is_cleanup(d[1])]) > 1 else None
+                if defs_:
+                    # a condition computed on several paths: each way of making it "emit" is judged on its own
+                    for dbb, v in defs_:
+                        if isinstance(v, bool):
+                            if v == site_on_true:
+                                for i2, t2, yes2, no2 in controlling_switches(b, dbb):
+                                    tg2 = {vv: tb for vv, tb in t2["targets"]}
+                                    handle(discr_def(b, i2, t2), i2, t2["otherwise"] in yes2, [], 1)
+                        else:
+                            handle(v, i, site_on_true, no, 1)
+                    continue
+                handle(discr_def(b, i, t), i, site_on_true, no)
+            draw_ok = draw_ok_box[0]
             ctx.check(draw_ok and not problems, "R12.1", key + "#emit-iff-draw<=rate", loc(b, s.bb),
                       "; ".join(problems) or "the call of format_with_sample_rate is not guarded by `draw <= rate` on the passed rate",
                       "emit <=> draw <= rate, same rate origin %s" % sorted(map(str, rate_o)))
@@ -376,6 +420,28 @@ def run(ctx):
                           "the rate-update loop can skip a group (an iteration reaches the next one without storing a rate): that group keeps a rate "
                           "computed for an older traffic mix while the others are given the whole budget, so sum(volume x rate) exceeds the target "
                           "and a rarer group can be sampled lower than a more frequent one")
+    # the same update written with an internal-iteration adapter: `groups.values_mut().for_each(|g| g.sample_rate = ..)`
+    for adt in gs:
+        for cb in F.all_bodies(W):
+            if cb.kind != "Closure" or "::tests::" in cb.path:
+                continue
+            stores = [i for i in cb.live_blocks() for s in cb.stmts(i) if s["k"] == "assign" and any(
+                e[0] == "f" and e[2] == "sample_rate" and e[3] == adt["def"] for e in s["lhs"].get("p", []))]
+            if not stores:
+                continue
+            for pb in F.all_bodies(W):
+                for c in pb.calls():
+                    if c.name not in ("for_each", "for_each_mut") or cb not in closure_args(F, c):
+                        continue
+                    nl += 1
+                    ro = Prov(pb).operand(c.args[0])
+                    srcs = [(pb.term(x[1]).get("callee") or {}).get("name") for x in ro if x[0] == "call"]
+                    partial = [n for n in srcs if n in ("filter", "filter_map", "skip", "take", "step_by", "take_while", "skip_while", "flat_map")]
+                    whole = any(n in ("values_mut", "iter_mut", "values", "iter", "drain") for n in srcs)
+                    ctx.check(whole and not partial, "R12.4", fnkey(pb) + "#rate-update-ranges-over-all-groups@loop%d" % nl, loc(pb, c.bb),
+                              "the rate update ranges over a filtered / truncated view of the groups (%s): the groups left out keep a stale rate" % (partial or srcs))
+                    ctx.check(cb.must_pass(stores), "R12.4", fnkey(pb) + "#every-group-gets-a-fresh-rate@loop%d" % nl, loc(pb, c.bb),
+                              "the per-group update closure can return without storing a rate: that group keeps a rate computed for an older traffic mix")
     ctx.floor("R12.4", "rate-update loops", nl, 2)
     return EXPL
 
